@@ -62,7 +62,7 @@ def _(c):
     c.ensures('len(shown()) == old(len(shown())) + 1 and shown()[old(len(shown()))] is self and shown_at()[old(len(shown()))] == old(len(out_text()))', 'noted_as_shown')
     c.ensures('all(shown()[k] is old(shown())[k] and shown_at()[k] == old(shown_at())[k] for k in range(0, old(len(shown()))))', 'earlier_shown_kept')
     c.ghost('retag_last(1, self)', at='exit')
-    c.modifies('trace')
+    c.effect('emit_kind(1, self)')
     c.epoch_preserving()
 
 
@@ -77,7 +77,8 @@ def _(c):
     c.ensures('len(shown()) == old(len(shown())) + 1 and shown()[old(len(shown()))] is message and shown_at()[old(len(shown()))] == len(out_text()) - 1', 'noted_as_shown')
     c.ensures('all(shown()[k] is old(shown())[k] and shown_at()[k] == old(shown_at())[k] for k in range(0, old(len(shown()))))', 'earlier_shown_kept')
     c.ensures('all(out_kind()[k] == old(out_kind())[k] and out_msg()[k] is old(out_msg())[k] for k in range(0, old(len(out_text()))))', 'earlier_entries_kept')
-    c.modifies('self.last_shown_timestamp', 'trace')
+    c.effect('if gap:\n    emit_kind(0, None)\nemit_kind(1, message)')
+    c.modifies('self.last_shown_timestamp')
     c.epoch_preserving()
     c.native_gen(_gen_show_message)
 
